@@ -317,7 +317,9 @@ fn blank_token_check<const N: usize>(run: usize) {
     let sentinel: u8 = kani::any();
     kani::assume(sentinel != b' ');
     let ends_input: bool = kani::any();
-    bytes[run] = sentinel;
+    // (element-wise, concrete indices: a store at a symbolic index makes every later read an array-theory lookup)
+    let mut k = 0;
+    while k < N { if k == run { bytes[k] = sentinel; } k += 1; }
     let len = if ends_input { run } else { run + 1 };
     let mut p = FormatParser::new(&bytes[..len]);
     let want = if run < 255 { run } else { 255 };
@@ -330,6 +332,15 @@ fn blank_token_check<const N: usize>(run: usize) {
 #[kani::proof]
 #[kani::unwind(262)]
 fn lex_blank_token_contract_bounded() { blank_token_check::<300>(kani::any()); }
+
+/// quick tier: the run lengths around the 255 split of the u8 counter
+#[kani::proof]
+#[kani::unwind(266)]
+fn lex_blank_token_split_bounded() {
+    let run: usize = kani::any();
+    kani::assume(run >= 250 && run <= 262);
+    blank_token_check::<264>(run);
+}
 
 /// quick tier: every run length up to 40
 #[kani::proof]
